@@ -6,6 +6,11 @@ from pathlib import Path
 
 VERIF = Path(__file__).resolve().parent.parent
 rows = []
+last = {}
+lf = VERIF / "seeded" / "selftest_last.json"
+if lf.exists():
+    for r in json.load(open(lf)):
+        last[r["seed"]] = r
 for f in sorted(glob.glob(str(VERIF / "seeded" / "*" / "meta.json"))):
     m = json.load(open(f))
     caught = []
@@ -16,6 +21,12 @@ for f in sorted(glob.glob(str(VERIF / "seeded" / "*" / "meta.json"))):
     if det:
         mm = re.search(r'(obligation|bounded-check)="([^"]+)', det[0])
         how = (("deductive: " if mm.group(1) == "obligation" else "bounded: ") + mm.group(2)[:110]) if mm else det[0][:110]
+    st = last.get(m["id"])
+    if st and not caught:
+        caught = [f"{st['property']}: {'VIOLATION (exit 1)' if st['status'] == 'detected' else st['status']} (self-test)"]
+        mm = re.search(r'(obligation|bounded-check)="([^"]+)', st.get("detail", ""))
+        if mm and not how:
+            how = ("deductive: " if mm.group(1) == "obligation" else "bounded: ") + mm.group(2)[:110]
     rows.append((m["id"], m["breaks_property"], m.get("change", m.get("needs_to_manifest", ""))[:150], "; ".join(caught), how, m.get("note", "")))
 out = ["## Appendix A. Seeded changes and the checks that catch them", "",
        "| seed | property | needs, in order to manifest | check verdict | first failing obligation / bounded check | note |", "|---|---|---|---|---|---|"]
@@ -23,8 +34,12 @@ for r in rows:
     out.append("| " + " | ".join(str(x).replace("|", "/") for x in r) + " |")
 text = (VERIF / "DESIGN.md").read_text()
 marker = "## Appendix A."
+tail = ""
+if "## Appendix B." in text:
+    tail = "\n" + text[text.index("## Appendix B.") :]
+    text = text[: text.index("## Appendix B.")]
 if marker in text:
     text = text[: text.index(marker)]
-text = text.rstrip() + "\n\n" + "\n".join(out) + "\n"
+text = text.rstrip() + "\n\n" + "\n".join(out) + "\n" + tail
 (VERIF / "DESIGN.md").write_text(text)
 print(len(rows), "seeds")
